@@ -58,7 +58,8 @@ Theorem dim_addr_oob : forall dv addr k,
 Proof. exact ArrIndexProofs.dim_addr_oob. Qed.
 Print Assumptions dim_addr_oob.
 
-(* the ARRAY_DEREF / ARRAYREF_DEREF handler on an array built by the VM *)
+(* the ARRAY_DEREF / ARRAYREF_DEREF handler on the dimension vector object_arr_dim_mult builds for
+   given extents (for arrays created by MK_ARRAY see mk_array_deref_spec: no product hypothesis) *)
 Theorem array_deref_spec : forall exts idx,
   Forall is_s32 idx -> length idx = length exts ->
   (prodZ exts < two32 -> in_range exts idx ->
